@@ -1,7 +1,7 @@
 """C04 — Every order placed follows the node's inventory policy: correspondence of Sim/Model.v with stockpyl.sim on OQFG/OQ/IO,
 the order monitor of py/simmon.py (inventory position recomputed independently from the previous period's state), the pure policy
 functions against the documented rules, and serial echelon-base-stock vs converted local base-stock systems."""
-import copy, warnings
+import copy, warnings, json
 from fractions import Fraction
 from vlib import *
 import simlib, simmon
@@ -148,10 +148,118 @@ def serial_stream(chk, n, do_model=True):
             chk.broken.append(('model-evaluation-serial', str(e)[-400:]))
 
 
+# ---- ordering step of multi-product nodes: Sim/MultiOrder.v vs the implementation, on the states the simulator actually reaches ------
+
+def capture_order_steps(case):
+    """run a multi-product simulation and record, for every (node, period), the state the node's ordering loop starts from
+    (read right after sim._receive_inbound_orders returns) and the orders it placed (read from state_vars at the end)"""
+    import stockpyl.sim as sim
+    sim.issued_backorder_warning = False
+    net = simmon.build_multi(case); T = case['T']
+    snaps = []
+    orig = sim._receive_inbound_orders
+    def hooked(node):
+        orig(node)
+        sv = node.state_vars_current; t = node.network.period
+        prods = []
+        for k in node.product_indices:
+            pol = node.get_attribute('inventory_policy', product=k)
+            cap = node.get_attribute('order_capacity', product=k) or None
+            rms_k = node.raw_materials_by_product(product=k, return_indices=True, network_BOM=True)
+            prods.append(dict(id=k, il=sv.inventory_level[k], dem=node._get_state_var_total('inbound_order', t, product=k), cap=cap, pfg=sv.pending_finished_goods[k],
+                              pol=dict(type=pol.type, S=pol.base_stock_level, s=pol.reorder_point, up=pol.order_up_to_level, Q=pol.order_quantity),
+                              bom=[(r, node.NBOM(product=k, predecessor=None, raw_material=r)) for r in rms_k]))
+        rms = []
+        for r in node.raw_materials_by_product(product='all', return_indices=True, network_BOM=True):
+            sups = node.raw_material_suppliers_by_raw_material(raw_material=r, return_indices=True, network_BOM=True)
+            rms.append(dict(id=r, inv=sv.raw_material_inventory[r], sups=[(p, sv.on_order_by_predecessor[p][r], sv.inbound_disrupted_items[p][r]) for p in sups]))
+        foreign = [(pd['id'], r['id'], node.NBOM(product=pd['id'], predecessor=None, raw_material=r['id'])) for pd in prods for r in rms if r['id'] not in [x for x, _ in pd['bom']]]
+        snaps.append(dict(node=node.index, t=t, paused=bool(node.disrupted and node.disruption_process.disruption_type == 'OP'), prods=prods, rms=rms,
+                          foreign_nbom=[x for x in foreign if x[2] not in (0, None)]))
+    sim._receive_inbound_orders = hooked
+    try:
+        with warnings.catch_warnings():
+            warnings.simplefilter('ignore')
+            sim.simulation(net, T, rand_seed=1, progress_bar=False, consistency_checks='N')
+    finally:
+        sim._receive_inbound_orders = orig
+    nodes = {n.index: n for n in net.nodes}
+    for sn in snaps:
+        sv = nodes[sn['node']].state_vars[sn['t']]
+        sn['oqfg'] = [sv.order_quantity_fg[pd['id']] for pd in sn['prods']]
+        sn['oq'] = [[sv.order_quantity[p][r['id']] for p, _, _ in r['sups']] for r in sn['rms']]
+    return snaps
+
+
+def coq_order_step(sn):
+    ids = {}
+    def nid(x):
+        return cnat_N(ids.setdefault(('n', x), len(ids) + 1))
+    def cnat_N(i): return '%d%%N' % i
+    def pol(p):
+        if p['type'] == 'BS': return '(BS %s)' % cq(p['S'])
+        if p['type'] == 'sS': return '(SS %s %s)' % (cq(p['s']), cq(p['up']))
+        if p['type'] == 'rQ': return '(RQ %s %s)' % (cq(p['s']), cq(p['Q']))
+        if p['type'] == 'FQ': return '(FQ %s)' % cq(p['Q'])
+        raise ValueError(p['type'])
+    def nbv(p): return 'Ext' if p is None else '(Nd %s)' % nid(('node', p))
+    rms = '[' + '; '.join('{| r_id := %s; r_inv := %s; r_sups := [%s] |}' % (nid(('prod', r['id'])), cq(r['inv']),
+                          '; '.join('{| s_nb := %s; s_oo := %s; s_idi := %s |}' % (nbv(p), cq(oo), cq(idi)) for p, oo, idi in r['sups'])) for r in sn['rms']) + ']'
+    prods = '[' + '; '.join('{| p_id := %s; p_il := %s; p_dem := %s; p_pol := %s; p_cap := %s; p_pfg := %s; p_bom := [%s] |}'
+                            % (nid(('prod', pd['id'])), cq(pd['il']), cq(pd['dem']), pol(pd['pol']), copt(pd['cap']), cq(pd['pfg']),
+                               '; '.join('(%s, %s)' % (nid(('prod', r)), cq(num)) for r, num in pd['bom'])) for pd in sn['prods']) + ']'
+    return ('let prods := %s in let rms := %s in let o := order_obs %s prods rms in (map qobs (fst o), map (map qobs) (snd o), map qobs (ip_trace prods rms))'
+            % (prods, rms, cbool(sn['paused'])))
+
+
+def multi_order_stream(chk, n, do_model=True):
+    if not (do_model and simmon.ensure_model(chk)): return
+    ok, log = coq_make(['Sim/MultiOrder.vo'])
+    if not ok:
+        chk.broken.append(('Sim/MultiOrder.vo', log[-600:])); return
+    snaps = []; ncase = 0
+    for _ in range(n):
+        c = simmon.gen_multi(chk.rng, nmax=5, tmax=10); c['mode'] = 'multi'
+        c = simmon.multi_from_json(json.loads(json.dumps(jsonable(c))))
+        try:
+            ss = capture_order_steps(c)
+        except Exception as e:
+            chk.fail('simulation|multi-product|raises-%s' % exc_kind(e), '%s: %s' % (type(e).__name__, str(e)[:200]), c); continue
+        ncase += 1
+        # keep the steps of multi-product nodes and a sample of the others
+        for sn in ss:
+            if len(sn['prods']) > 1 or chk.rng.random() < 0.2:
+                sn['case'] = c; snaps.append(sn)
+    if chk.tier == 'quick': snaps = snaps[:1500]
+    try:
+        vals = coq_eval_sharded('c04mo', 'Sim.MultiOrder', '', [coq_order_step(sn) for sn in snaps], shard=100)
+    except Exception as e:
+        chk.broken.append(('model-evaluation-multi-order', str(e)[-500:])); return
+    near = 0
+    for sn, v in zip(snaps, vals):
+        chk.traces += 1
+        mfg = [qv(x) for x in v[0]]; moq = [[qv(x) for x in row] for row in v[1]]; mip = [qv(x) for x in v[2]]
+        shared = any(sum(1 for pd in sn['prods'] if any(r == rm['id'] for r, _ in pd['bom'])) > 1 for rm in sn['rms'])
+        chk.count('multi-order:products=%d' % len(sn['prods'])); chk.count('multi-order:shared-raw-material=%s' % shared); chk.count('multi-order:paused=%s' % sn['paused'])
+        if sn['foreign_nbom']:
+            chk.mismatch('NBOM of a product for a raw material it does not use is not 0: %s' % (sn['foreign_nbom'][:3],), dict(mode='multi-order', node=sn['node'], t=sn['t'], case=sn['case'])); continue
+        # margin rule: a position within 1e-7 of a reorder point may fall on either side in binary64
+        if any(pd['pol']['type'] in ('sS', 'rQ') and abs(ip - F(pd['pol']['s'])) <= Fraction(1, 10 ** 7) and ip != F(pd['pol']['s']) for pd, ip in zip(sn['prods'], mip)):
+            near += 1; continue
+        bad = [(pd['id'], float(a), float(b)) for pd, a, b in zip(sn['prods'], mfg, [F(x) for x in sn['oqfg']]) if not close(a, b)]
+        bad += [(rm['id'], p[0], float(a), float(F(b))) for rm, ra, rb in zip(sn['rms'], moq, sn['oq']) for p, a, b in zip(rm['sups'], ra, rb) if not close(a, F(b))]
+        if bad:
+            chk.mismatch('ordering step of node %s in period %d: model (Sim/MultiOrder.v order_step) and implementation differ on (product | raw material, supplier, model, implementation): %s; observed positions %s'
+                         % (sn['node'], sn['t'], bad[:4], [float(x) for x in mip]), dict(mode='multi-order', node=sn['node'], t=sn['t'], case=sn['case']))
+        chk.case(dict(mode='multi-order', node=sn['node'], t=sn['t'], products=len(sn['prods'])), len(sn['prods']) > 1 and shared)
+    chk.extra['multi_order_steps'] = len(snaps); chk.extra['multi_order_near_tie_skipped'] = near; chk.extra['multi_order_networks'] = ncase
+
+
 def extra(chk, mult):
     q = chk.tier == 'quick'
     policy_stream(chk, (400 if q else 4000) * mult, do_model=(mult == 1))
     serial_stream(chk, (60 if q else 600) * mult, do_model=(mult == 1))
+    if mult == 1: multi_order_stream(chk, 40 if q else 300)
 
 
 def run(chk):
